@@ -25,7 +25,7 @@ OPS = ["+", "-", "*", "/", "%", "**", "<<", ">>", "AND", "OR", "XOR"]
 
 
 def budget(tier):
-    return {"examples": 3000 if tier == "quick" else 20000, "wall_s": 110 if tier == "quick" else 1500}
+    return {"examples": 3000 if tier == "quick" else 20000, "wall_s": 110 if tier == "quick" else 900}
 
 
 def py_eval(e):
